@@ -1,5 +1,6 @@
-"""Reference server of histsim: a second interpreter (other PYTHONHASHSEED) answering
-compile requests, each in a fresh fork.  Loaded by path."""
+"""Process server of histsim: a separate interpreter (own PYTHONHASHSEED) answering compile
+and history requests, each in a fork of its pristine state (mode fork) or after a reset of
+its module universe (mode reset).  Loaded by path."""
 import os
 import sys
 
@@ -8,4 +9,4 @@ sys.path.insert(0, os.path.dirname(os.path.dirname(os.path.abspath(__file__))))
 from lsim import histsim  # noqa: E402
 
 if __name__ == '__main__':
-  histsim.refserver_main()
+  histsim.refserver_main(sys.argv[1] if len(sys.argv) > 1 else 'fork')
